@@ -26,8 +26,14 @@ def make(rng, tier):
             ops += [("set", b"c", r.bytes(4)), ("get", b"k")]
         ops += [("reopen",)]
         ops += [("waitthreads", 1, 3000), ("waitfds", 2, 3000), ("get", b"k")]
+        if i % 3 == 2:
+            # the store is dropped while a merge pass is in flight on another thread (seed C17-D shape): closed must stay closed
+            j = ops.index(("drop",))
+            # (the pass that was already running may finish: the directory is listed again once it has)
+            ops[j:j + 1] = [("parkpoint", "merge:after_copy", 300), ("bgmerge",), ("sleep", 100), ("drop",), ("sleep", 700), ("nopoints",), ("ls",)]
         c = S.Case("x%d" % i, cfg, ops)
         c.cycles = cycles
+        c.inflight = ("bgmerge",) in ops
         c.policy = ["always", "never", "window:open", "window:closed"][i % 4]
         if c.policy == "never":
             # with policy never and no interval sync both periodic tasks return at once: the worker thread ends by itself
@@ -45,6 +51,8 @@ def script(c):
             out.append("%s %s" % (o[0], o[1].hex()))
         elif o[0] == "sleep":
             out.append("sleep %d" % o[1])
+        elif o[0] == "parkpoint":
+            out.append("parkpoint %s %d" % (o[1], o[2]))
         elif o[0] in ("waitthreads", "waitfds"):
             out.append("%s %d %d" % (o[0], o[1], o[2]))
         elif o[0] == "set":
@@ -101,8 +109,9 @@ def main(tier, seed):
                 bad.append("get number %d through a handle that outlived the store: %s instead of the closed error (pool of %d readers)"
                            % (j + 1, l, c.cfg.get("conc", 1)))
                 break
-        if at("ls", 0) != at("ls", 1):
-            bad.append("the directory changed after the store was closed: %s -> %s" % (at("ls", 0), at("ls", 1)))
+        lss = [l for o, l in seq if o[0] == "ls"]
+        if len(lss) >= 2 and lss[-2] != lss[-1]:
+            bad.append("the directory changed after the store was closed: %s -> %s" % (lss[-2], lss[-1]))
         open_threads = "threads 0" if c.policy == "never" else "threads 1"
         if at("waitthreads", 0) != open_threads:
             bad.append("expected one background thread while open, saw %s" % at("waitthreads", 0))
@@ -117,7 +126,8 @@ def main(tier, seed):
         if at("waitthreads", 4) != open_threads:
             bad.append("after %d open/close cycles %s background threads exist" % (c.cycles, at("waitthreads", 4)))
         f1, f2 = at("waitfds", 0), at("waitfds", 1)
-        if f1 is None or f2 is None or int(f2.split()[1]) > 2 or int(f1.split()[1]) > 2:
+        fdmax = 4 if c.inflight else 2        # the old handle of an in-flight merge also keeps the readers it used for copying
+        if f1 is None or f2 is None or int(f2.split()[1]) > fdmax or int(f1.split()[1]) > fdmax or int(f2.split()[1]) > int(f1.split()[1]):
             bad.append("descriptors on store files do not go back to 2 (current writer + the surviving old handle) after a reopen: "
                        "%s after 2 cycles, %s after %d cycles" % (f1, f2, c.cycles))
         nobs += 6
@@ -136,6 +146,7 @@ def main(tier, seed):
         "rule": "per process (merge policy always / never / window open all day / window closed now, in turn): write, drop the store while a handle "
                 "survives, try get/set/del/merge/sync through it and then pool-size+2 more gets (each with a 3 s deadline), compare directory "
                 "listings, count background threads (/proc/self/task/*/comm) 60 ms after the drop with a one-hour timer, reopen, then "
+                "(in every third case the drop happens while a merge pass is parked in its copy loop on another thread), "
                 "3-12 open/close cycles and count threads and store descriptors (/proc/self/fd); distinct = cycle counts",
         "samples": [{"ops": [S.show_op(o) if o[0] in ("set", "get", "del") else str(o) for o in cases[0].ops[:16]]}],
         "proof": {"file": "coq/Props/C17.v", "theorems": pr["theorems"], "axioms": pr["axioms"]},
